@@ -215,7 +215,20 @@ def chk_case(inp, c):
         args["L1"] = inp["L1"]
     if ek == "explicit":
         args["Epsilon"] = inp["Eps"].copy()
+    del c.events[:]          # only the events of the judged call
     ok_call, out = c.try_call(est.minimize_variance, B.copy(), **args, **kw)
+    bad_st = sorted({str(f.get("status")) for kk_, f in c.events
+                     if kk_ == "solve.status" and f.get("where") == "lsq_linear_minimize"} - {"optimal", "None"})
+    for st_ in bad_st:
+        c.cell("status=" + st_)
+
+    def mech(base, excess=1.0):
+        """Status-aware key: a variance-minimising solve that did not end 'optimal' is the mechanism; 'optimal_inaccurate'
+        explains deviations up to 4x the tolerance only (larger ones are keyed ':gross', never a listed finding)."""
+        if not bad_st:
+            return base
+        st = bad_st[0]
+        return f"{base}@{st}" + (":gross" if (st == "optimal_inaccurate" and excess > 4.0) else "")
     if not ok_call:
         exc = out
         if inp["L1"] is not None:
@@ -278,7 +291,8 @@ def chk_case(inp, c):
         c.margin("error excess / (l2_eps + tau_e)", e - eo, inp["l2_eps"] + tau_e)
         c.require(e <= eo + inp["l2_eps"] + tau_e,
                   "capture error does not exceed the best achievable error by more than the requested tolerance",
-                  mechanism="fit-quality-lost", row=r, err=e, err_opt=eo, l2_eps=inp["l2_eps"], cls=inp["classes"][r])
+                  mechanism=mech("fit-quality-lost", (e - eo) / (inp["l2_eps"] + tau_e)), row=r, err=e, err_opt=eo,
+                  l2_eps=inp["l2_eps"], cls=inp["classes"][r])
         L1r = None
         if inp["L1"] is not None:
             L1r = float(inp["L1"]) if np.ndim(inp["L1"]) == 0 else float(inp["L1"][r])
